@@ -247,6 +247,10 @@ def handle : List Sexp → Option Sexp
       if !streamOk s then pure (.atom "unmodelled") else
       pure (.list [tstreamOut (translate cfg cat ctx tt ta s),
                    .list ((lookups cfg ctx tt ta s).map lookupOut)])
+  | [.atom "extractw", cfg, st, .list cs, .list xs, s] => do
+      let cfg ← cfg? cfg; let st ← st.toBool?; let cs ← strs? cs; let xs ← strs? xs; let s ← tstream? s
+      if !streamOk s then pure (.atom "unmodelled") else
+      pure (exceptOut (fun ms => .list (ms.map messageOut)) (extractWith cfg st cs xs s))
   | [.atom "extract", cfg, s] => do
       let cfg ← cfg? cfg; let s ← tstream? s
       if !streamOk s then pure (.atom "unmodelled") else
